@@ -23,3 +23,296 @@ pub(crate) fn any_name(max_len: u8) -> NormalizedString {
 pub(crate) fn name_bytes(n: &NormalizedString) -> ([u8; 16], usize) {
     (n.s, n.length as usize)
 }
+
+use crate::error::NormalizedStringError;
+use core::convert::TryFrom;
+
+fn upper(b: u8) -> u8 {
+    if b >= b'a' && b <= b'z' {
+        b - 32
+    } else {
+        b
+    }
+}
+
+fn allowed(b: u8) -> bool {
+    b >= 0x20 && b <= 0x7E
+}
+
+/// scalar value of the UTF-8 sequence starting at i (input is valid UTF-8)
+fn decode_at<const L: usize>(b: &[u8; L], i: usize) -> u32 {
+    let b0 = b[i] as u32;
+    if b0 < 0x80 {
+        b0
+    } else if b0 < 0xE0 {
+        ((b0 & 0x1F) << 6) | (b[i + 1] as u32 & 0x3F)
+    } else if b0 < 0xF0 {
+        ((b0 & 0x0F) << 12) | ((b[i + 1] as u32 & 0x3F) << 6) | (b[i + 2] as u32 & 0x3F)
+    } else {
+        ((b0 & 0x07) << 18) | ((b[i + 1] as u32 & 0x3F) << 12) | ((b[i + 2] as u32 & 0x3F) << 6) | (b[i + 3] as u32 & 0x3F)
+    }
+}
+
+/// C13: accept set, stored text, error kinds - every UTF-8 string of at most L bytes.
+fn accept<const L: usize>() {
+    let bytes: [u8; L] = kani::any();
+    let len: usize = kani::any();
+    kani::assume(len <= L);
+    kani::assume(verif_oracle::utf8_valid(&bytes[..len]));
+    let s = verif_oracle::str_unchecked(&bytes[..len]);
+
+    // specification
+    let mut all_allowed = true;
+    let mut first_bad = L;
+    let mut i = 0;
+    while i < L {
+        if i < len && !allowed(bytes[i]) && all_allowed {
+            all_allowed = false;
+            first_bad = i;
+        }
+        i += 1;
+    }
+    let len_ok = len >= 1 && len <= 16;
+
+    match NormalizedString::new(s) {
+        Ok(n) => {
+            assert!(len_ok && all_allowed, "C13: a string outside 1..16 printable ASCII bytes was accepted");
+            assert!(n.length as usize == len, "C13: stored length differs");
+            let mut i = 0;
+            while i < 16 {
+                if i < len {
+                    assert!(n.s[i] == upper(bytes[i]), "C13: stored text is not the upper-cased input");
+                } else {
+                    assert!(n.s[i] == 0, "C13: padding not zero");
+                }
+                i += 1;
+            }
+            // the text view is exactly the stored prefix
+            let t = n.as_ref().as_bytes();
+            assert!(t.len() == len, "C13: as_ref length differs");
+            let mut i = 0;
+            while i < 16 {
+                if i < len {
+                    assert!(t[i] == upper(bytes[i]), "C13: as_ref text differs");
+                }
+                i += 1;
+            }
+            kani::cover!(len == 16, "accepted 16-byte string");
+            kani::cover!(len == 1, "accepted 1-byte string");
+        }
+        Err(NormalizedStringError::StringTooLong) => {
+            assert!(!len_ok, "C13: length error for a string of 1..16 bytes");
+            kani::cover!(len == 0, "empty string");
+            kani::cover!(len == 17 && !all_allowed, "17 bytes with a bad character reports length");
+        }
+        Err(NormalizedStringError::CharacterNotAllowed(c)) => {
+            assert!(len_ok, "C13: character error although the length is out of range");
+            assert!(!all_allowed, "C13: character error for an allowed string");
+            assert!(c as u32 == decode_at::<L>(&bytes, first_bad), "C13: reported character is not the first offending one");
+            kani::cover!(len == 16 && bytes[0] >= 0xF0, "16 bytes starting with a 4-byte character");
+            kani::cover!(len == 16 && first_bad == 14 && bytes[14] >= 0xC2, "15 ASCII bytes... 14 ASCII + one 2-byte char at the limit");
+            kani::cover!(bytes[first_bad] == 0x7F, "DEL refused");
+            kani::cover!(bytes[first_bad] < 0x20, "control character refused");
+        }
+    }
+}
+
+#[kani::proof]
+#[kani::unwind(19)]
+#[kani::stub(core::str::from_utf8, verif_oracle::from_utf8_model)]
+fn c13_accept() {
+    accept::<17>();
+}
+
+#[kani::proof]
+#[kani::unwind(26)]
+#[kani::stub(core::str::from_utf8, verif_oracle::from_utf8_model)]
+fn c13_accept_24() {
+    accept::<24>();
+}
+
+fn same_result(a: &Result<NormalizedString, NormalizedStringError>, b: &Result<NormalizedString, NormalizedStringError>) -> bool {
+    match (a, b) {
+        (Ok(x), Ok(y)) => x == y,
+        (Err(NormalizedStringError::StringTooLong), Err(NormalizedStringError::StringTooLong)) => true,
+        (Err(NormalizedStringError::CharacterNotAllowed(c)), Err(NormalizedStringError::CharacterNotAllowed(d))) => c == d,
+        _ => false,
+    }
+}
+
+/// C13: all constructors and conversions agree (strings of at most 4 bytes, plus one of 17 ASCII bytes).
+#[kani::proof]
+#[kani::unwind(19)]
+#[kani::stub(core::str::from_utf8, verif_oracle::from_utf8_model)]
+fn c13_constructors() {
+    const L: usize = 4;
+    let bytes: [u8; L] = kani::any();
+    let len: usize = kani::any();
+    kani::assume(len <= L);
+    kani::assume(verif_oracle::utf8_valid(&bytes[..len]));
+    let s = verif_oracle::str_unchecked(&bytes[..len]);
+    let r = NormalizedString::new(s);
+    assert!(same_result(&r, &NormalizedString::from_str(s)), "C13: from_str disagrees with new");
+    assert!(same_result(&r, &NormalizedString::try_from(s)), "C13: TryFrom<&str> disagrees with new");
+    assert!(same_result(&r, &NormalizedString::from_string(s)), "C13: from_string disagrees with new");
+    assert!(same_result(&r, &NormalizedString::try_from(String::from(s))), "C13: TryFrom<String> disagrees with new");
+    kani::cover!(r.is_ok(), "accepted");
+    kani::cover!(matches!(r, Err(NormalizedStringError::CharacterNotAllowed(_))), "character refused");
+    kani::cover!(matches!(r, Err(NormalizedStringError::StringTooLong)), "empty refused");
+    let long = "AAAAAAAAAAAAAAAAA";
+    assert!(matches!(NormalizedString::from_string(long), Err(NormalizedStringError::StringTooLong)));
+    assert!(matches!(NormalizedString::try_from(long), Err(NormalizedStringError::StringTooLong)));
+    assert!(matches!(NormalizedString::from_str(long), Err(NormalizedStringError::StringTooLong)));
+    assert!(matches!(NormalizedString::try_from(String::from(long)), Err(NormalizedStringError::StringTooLong)));
+}
+
+/// C13: normalising is idempotent and case-insensitive (every accepted string, every case variant).
+#[kani::proof]
+#[kani::unwind(18)]
+#[kani::stub(core::str::from_utf8, verif_oracle::from_utf8_model)]
+fn c13_case() {
+    const L: usize = 16;
+    let bytes: [u8; L] = kani::any();
+    let len: usize = kani::any();
+    kani::assume(len >= 1 && len <= L);
+    let mask: [bool; L] = kani::any();
+    let mut variant = bytes;
+    let mut i = 0;
+    while i < L {
+        if i < len {
+            kani::assume(allowed(bytes[i]));
+            let b = bytes[i];
+            if mask[i] && ((b >= b'a' && b <= b'z') || (b >= b'A' && b <= b'Z')) {
+                variant[i] = b ^ 0x20;
+            }
+        }
+        i += 1;
+    }
+    let a = NormalizedString::new(verif_oracle::str_unchecked(&bytes[..len])).unwrap();
+    let b = NormalizedString::new(verif_oracle::str_unchecked(&variant[..len])).unwrap();
+    assert!(a == b, "C13: case variants normalise differently");
+    let again = NormalizedString::new(a.as_ref()).unwrap();
+    assert!(again == a, "C13: normalising is not idempotent");
+    kani::cover!(len == 16 && bytes[0] == b'~' && bytes[1] == b'z' && variant[1] == b'Z', "lower-case z after a tilde");
+    kani::cover!(len == 16 && mask[15] && variant[15] != bytes[15], "case flipped in the last byte");
+}
+
+struct RecHasher {
+    buf: [u8; 48],
+    n: usize,
+}
+impl core::hash::Hasher for RecHasher {
+    fn finish(&self) -> u64 {
+        0
+    }
+    fn write(&mut self, bytes: &[u8]) {
+        let mut i = 0;
+        while i < bytes.len() {
+            assert!(self.n < 48, "harness: hasher buffer too small");
+            self.buf[self.n] = bytes[i];
+            self.n += 1;
+            i += 1;
+        }
+    }
+}
+
+fn text_cmp(a: &NormalizedString, b: &NormalizedString) -> core::cmp::Ordering {
+    // lexicographic order of the normalised texts
+    let mut r = core::cmp::Ordering::Equal;
+    let mut decided = false;
+    let mut i = 0;
+    while i < 16 {
+        if !decided {
+            let ia = i < a.length as usize;
+            let ib = i < b.length as usize;
+            if ia && ib {
+                if a.s[i] < b.s[i] {
+                    r = core::cmp::Ordering::Less;
+                    decided = true;
+                } else if a.s[i] > b.s[i] {
+                    r = core::cmp::Ordering::Greater;
+                    decided = true;
+                }
+            } else if ia && !ib {
+                r = core::cmp::Ordering::Greater;
+                decided = true;
+            } else if !ia && ib {
+                r = core::cmp::Ordering::Less;
+                decided = true;
+            } else {
+                decided = true;
+            }
+        }
+        i += 1;
+    }
+    r
+}
+
+/// C13: equality, ordering and hashing follow the normalised text (any two valid values).
+#[kani::proof]
+#[kani::unwind(50)]
+#[kani::stub(core::str::from_utf8, verif_oracle::from_utf8_model)]
+fn c13_relations() {
+    use core::hash::Hash;
+    let a = any_name(16);
+    let b = any_name(16);
+    let t = text_cmp(&a, &b);
+    assert!((a == b) == (t == core::cmp::Ordering::Equal), "C13: == does not follow the text");
+    assert!(a.cmp(&b) == t, "C13: cmp does not follow the text");
+    assert!(a.partial_cmp(&b) == Some(t), "C13: partial_cmp does not follow the text");
+    assert!((a.as_ref() == b.as_ref()) == (t == core::cmp::Ordering::Equal), "C13: text views disagree with ==");
+    let mut ha = RecHasher { buf: [0; 48], n: 0 };
+    let mut hb = RecHasher { buf: [0; 48], n: 0 };
+    a.hash(&mut ha);
+    b.hash(&mut hb);
+    if t == core::cmp::Ordering::Equal {
+        assert!(ha.n == hb.n, "C13: equal texts hash differently");
+        let mut i = 0;
+        while i < 48 {
+            assert!(ha.buf[i] == hb.buf[i], "C13: equal texts hash differently");
+            i += 1;
+        }
+    }
+    kani::cover!(t == core::cmp::Ordering::Less && a.length > b.length, "longer text sorts first");
+    kani::cover!(t == core::cmp::Ordering::Equal, "equal texts");
+    kani::cover!(t == core::cmp::Ordering::Greater && a.length < b.length, "shorter text sorts last");
+}
+
+struct Sink {
+    buf: [u8; 16],
+    n: usize,
+}
+impl core::fmt::Write for Sink {
+    fn write_str(&mut self, s: &str) -> core::fmt::Result {
+        let b = s.as_bytes();
+        let mut i = 0;
+        while i < b.len() {
+            assert!(self.n < 16, "harness: sink too small");
+            self.buf[self.n] = b[i];
+            self.n += 1;
+            i += 1;
+        }
+        Ok(())
+    }
+}
+
+/// C13: Display writes exactly the normalised text.
+#[kani::proof]
+#[kani::unwind(18)]
+#[kani::stub(core::str::from_utf8, verif_oracle::from_utf8_model)]
+fn c13_display() {
+    use core::fmt::Write;
+    let a = any_name(16);
+    let mut sink = Sink { buf: [0; 16], n: 0 };
+    let r = write!(sink, "{}", a);
+    assert!(r.is_ok(), "C13: Display failed");
+    assert!(sink.n == a.length as usize, "C13: Display length differs from the text");
+    let mut i = 0;
+    while i < 16 {
+        if i < sink.n {
+            assert!(sink.buf[i] == a.s[i], "C13: Display differs from the text");
+        }
+        i += 1;
+    }
+    kani::cover!(a.length == 16, "16-byte name displayed");
+}
